@@ -254,6 +254,19 @@ def check_modes(case):
                 view_check(base_mode, v, content, case["ntn"], f"{what} [file {k!r}]")
         else:
             view_check(base_mode, value, main, case["ntn"], what)
+        # the same command once more over its own results (output files exist already, with exactly this content): same contract
+        if mode.startswith("multi") or case["out"].startswith("-o"):
+            rc2, out2, err2 = run(flags + args, d, stdin=stdin)
+            basic_sanity(rc2, out2, err2, what + " [second run]")
+            if rc2 != 0:
+                raise Violation("rerun-exit-status", f"{what}: the second run over its own output exits {rc2}: {err2.decode('utf-8', 'replace')[-300:]}")
+            main2 = open(opath, "rb").read() if case["out"].startswith("-o") else out2
+            if main2 != main:
+                raise Violation("rerun-output-differs", f"{what}: the second run over its own output writes {main2[:200]!r}, the first wrote {main[:200]!r}")
+            if mode.startswith("multi"):
+                for k, v in value["o"]:
+                    content = open(os.path.join(d, "outdir", k), "rb").read()
+                    view_check(base_mode, v, content, case["ntn"], f"{what} [file {k!r}, second run]")
         nflags = len([f for f in flags if f in ("-S", "-y", "-m", "-o", "--no-trailing-newline")])
         return {"nontrivial": nflags >= 2, "labels": [mode, case["out"]], "sample": what}
 
